@@ -382,7 +382,7 @@ func run(c *core.Ctx) error {
 			{name: "ops", families: []string{"ops", "compose", "trivia"}, flagSets: map[string][][]string{"ops": opSets, "trivia": xsets}, classN: 1, txtLen: 2},
 		}
 	}
-	nFile := c.Pick(5000, 60000)
+	nFile := c.Pick(5000, 36000)
 	per := c.Pick(2500, 3000)
 	for i := 0; i < nFile; i += per {
 		depth := 2 + (i/per)%2
@@ -658,28 +658,41 @@ func explain(c *core.Ctx, mism []*mismatch, subjInts [][]int) error {
 		}
 		c.Logf("deviation %s explains %d differences", d, n)
 	}
-	// what is left: all recorded deviations at once
+	// what is left: several recorded deviations at once (every pair, then all of them)
+	var combos [][]string
+	for i := range devs {
+		for j := i + 1; j < len(devs); j++ {
+			if len(devs) > 2 {
+				combos = append(combos, []string{devs[i], devs[j]})
+			}
+		}
+	}
 	if len(devs) > 1 {
+		combos = append(combos, devs)
+	}
+	for _, set := range combos {
 		var todo []*Case
 		for _, m := range mism {
 			if open(m) {
 				todo = append(todo, m.cs)
 			}
 		}
-		if len(todo) > 0 {
-			got, err := deviant(devs, todo, c.Workers)
-			if err != nil {
-				return err
-			}
-			n := 0
-			for _, m := range mism {
-				if open(m) && got[m.cs.ID] == m.real.Acc {
-					m.rec["deviation"] = strings.Join(devs, "+")
-					n++
-				}
-			}
-			c.Logf("all recorded deviations together explain %d of the remaining %d differences", n, len(todo))
+		if len(todo) == 0 {
+			break
 		}
+		got, err := deviant(set, todo, c.Workers)
+		if err != nil {
+			return err
+		}
+		n := 0
+		for _, m := range mism {
+			if open(m) && got[m.cs.ID] == m.real.Acc {
+				m.rec["deviation"] = "several"
+				m.rec["deviations"] = strings.Join(set, "+")
+				n++
+			}
+		}
+		c.Logf("deviations %s together explain %d of the remaining %d differences", strings.Join(set, "+"), n, len(todo))
 	}
 	return nil
 }
@@ -726,6 +739,9 @@ func judgeRecorded(c *core.Ctx, cases []*Case, real map[int]*RealOut, mism []*mi
 	tag := map[int]string{}
 	for _, m := range mism {
 		if d, ok := m.rec["deviation"].(string); ok {
+			if d == "several" {
+				d = m.rec["deviations"].(string)
+			}
 			tag[m.cs.ID] = d
 		} else {
 			tag[m.cs.ID] = "unexplained" // already reported as a violation
